@@ -16,6 +16,7 @@ pub mod heap {
         Mmapper, VMMap, VERIF_MMAPPER_FACTORY, VERIF_VM_MAP_FACTORY,
     };
     pub use crate::mmtk::{MMAPPER, VM_MAP};
+    pub use crate::util::heap::layout::VerifCreateFreeListResult as CreateFreeListResult;
     pub use crate::util::heap::layout::{Map32, Map64};
     pub use crate::util::heap::gc_trigger::MemBalancerTrigger;
     pub use crate::util::heap::monotonepageresource::MonotonePageResource;
